@@ -26,7 +26,10 @@ RENDER = {
 # an import followed by another statement on the SAME line: the line is walked to its end, the new import lands behind the whole line (outside the statement-level
     # model: only the oracle applies - the result must be valid Python and nothing but the inserted line may change)
 RENDER["import_semi"] = ["import sys; SYS_PATH_LEN = len(sys.path)", "import os; import json", "from collections import OrderedDict; OD = OrderedDict  # alias",
-                         "import sys; sys.path.insert(0, '.')"]
+                         "import sys; sys.path.insert(0, '.')",
+                         # ... and the statement behind the semicolon goes on over several lines (F-95): the logical line ends where that statement ends
+                         'import os; DOC = """\ndoc\n"""', "import pytest; pytestmark = [\n    pytest.mark.skipif(False, reason='x'),\n]", "import os; X = 1 + \\\n    2",
+                         "import os; Y = (\n    os.sep\n)  # end"]
 STMT = {"doc": "SDoc", "future": "SFuture", "import": "SImport", "other": "SOther", "top": "SImport", "nested": "SOther", "lookalike": "SImport"}
 BIND = {"top": "BTop", "nested": "BNested"}
 
@@ -126,6 +129,10 @@ def oracle(c, o):
 def check_part(ctx, n, label):
     from .core import coq_eval_shards, pmap
     cases = [gen_case(ctx.rng) for _ in range(n)]
+    # deterministic: every same-line layout as the last import of the leading block, alone and behind a docstring
+    for t in RENDER["import_semi"]:
+        cases.append({"body": ["import_semi", "other"], "source": t + "\nx = 1\n"})
+        cases.append({"body": ["doc", "import", "import_semi", "other"], "source": '"""doc"""\nimport sys\n' + t + "\n\n\ndef f():\n    return 1\n"})
     outs = pmap(run_case, cases, chunksize=16)
     terms, idx = [], []
     for i, (c, o) in enumerate(zip(cases, outs)):
